@@ -110,6 +110,21 @@ theorem filter_sortDesc (k : Nat) (l : List (String × Nat)) :
     rw [filter_insDesc k p _ (pairwise_sortDesc ps), ih, List.filter_cons]
     split <;> simp_all
 
+theorem perm_insDesc (p : String × Nat) (l : List (String × Nat)) : (insDesc p l).Perm (p :: l) := by
+  induction l with
+  | nil => exact List.Perm.refl _
+  | cons q qs ih =>
+    unfold insDesc
+    split
+    · exact List.Perm.refl _
+    · exact (List.Perm.cons q ih).trans (List.Perm.swap p q qs)
+
+/-- `sortDesc` only reorders. -/
+theorem perm_sortDesc (l : List (String × Nat)) : (sortDesc l).Perm l := by
+  induction l with
+  | nil => exact List.Perm.refl _
+  | cons p ps ih => exact (perm_insDesc p _).trans (List.Perm.cons p ih)
+
 /-! ### The greedy loop -/
 
 /-- Loop invariant: the names appended are those of a sub-list `chosen` of the candidates and
@@ -258,5 +273,138 @@ theorem splitBar_joinBar (names : List String) (hne : names ≠ [])
   · intro n hn
     obtain ⟨s, hs, rfl⟩ := List.mem_map.1 hn
     exact h s hs
+
+/-! ### Main facts about `chosenNames` / `nameFromValue` -/
+
+theorem chosenNames_spec (members : List (String × Nat)) (value : Nat) (ns : List String)
+    (h : chosenNames members value = some ns) :
+    ∃ chosen : List (String × Nat), (∀ x ∈ chosen, x ∈ candidates members value) ∧
+      ns = (chosen.map Prod.fst).reverse ∧ value = orAll (chosen.map Prod.snd) := by
+  unfold chosenNames at h
+  obtain ⟨chosen, h1, h2, h3⟩ := greedy_spec value (sortDesc (candidates members value)) [] 0
+  simp only at h
+  split at h
+  · rename_i hv
+    refine ⟨chosen, ?_, ?_, ?_⟩
+    · intro x hx
+      exact (mem_sortDesc x _).1 (h1.subset hx)
+    · cases h; rw [h2]; simp
+    · rw [h3] at hv
+      have : orAll (chosen.map Prod.snd) = value := by simpa using hv
+      exact this.symm
+  · cases h
+
+theorem chosenNames_none_iff (members : List (String × Nat)) (value : Nat) :
+    chosenNames members value = none ↔
+      orAll ((candidates members value).map Prod.snd) ≠ value := by
+  unfold chosenNames
+  simp only [greedy_ret, orAll_sortDesc, Nat.zero_or]
+  split <;> simp_all
+
+theorem nameFromValue_none_iff (members : List (String × Nat)) (value : Nat) :
+    nameFromValue members value = none ↔
+      orAll ((candidates members value).map Prod.snd) ≠ value := by
+  rw [← chosenNames_none_iff]
+  unfold nameFromValue
+  split <;> simp_all
+
+theorem tokensValue_chosen (members : List (String × Nat)) (hnd : (members.map Prod.fst).Nodup)
+    (value : Nat) (ns : List String) (h : chosenNames members value = some ns) :
+    tokensValue members ns = some value := by
+  obtain ⟨chosen, h1, h2, h3⟩ := chosenNames_spec members value ns h
+  have := tokensValue_of_members members hnd chosen.reverse (by
+    intro x hx
+    exact candidates_sub_upper members value x (h1 x (List.mem_reverse.1 hx)))
+  rw [List.map_reverse, List.map_reverse, orAll_reverse, ← h3, ← h2] at this
+  exact this
+
+theorem chosenNames_mem (members : List (String × Nat)) (value : Nat) (ns : List String)
+    (h : chosenNames members value = some ns) :
+    ∀ n ∈ ns, pyIsUpper n = true ∧ ∃ v, (n, v) ∈ members ∧ v ||| value = value := by
+  obtain ⟨chosen, h1, h2, _⟩ := chosenNames_spec members value ns h
+  intro n hn
+  rw [h2, List.mem_reverse, List.mem_map] at hn
+  obtain ⟨⟨n', v⟩, hx, rfl⟩ := hn
+  have := h1 _ hx
+  simp only [candidates, List.mem_filter, Bool.and_eq_true, beq_iff_eq] at this
+  exact ⟨this.2.1, v, this.1, this.2.2⟩
+
+theorem nameFromValue_parses (members : List (String × Nat)) (hnd : (members.map Prod.fst).Nodup)
+    (hbar : ∀ p ∈ members, '|' ∉ p.1.toList) (value : Nat) (s : String)
+    (h : nameFromValue members value = some s) : parseName members s = some value := by
+  unfold nameFromValue at h
+  split at h
+  · cases h
+  · rename_i hc
+    cases h
+    have := tokensValue_chosen members hnd value [] hc
+    simp only [tokensValue, Option.some.injEq] at this
+    subst this
+    have hs : splitBar "0" = ["0"] := by decide
+    simp [parseName, hs, tokensValue, tokenValue, zero_not_upper_member]
+  · rename_i n ns hc
+    cases h
+    unfold parseName
+    rw [splitBar_joinBar _ (by simp)]
+    · exact tokensValue_chosen members hnd value _ hc
+    · intro m hm
+      obtain ⟨_, v, hv, _⟩ := chosenNames_mem members value _ hc m hm
+      exact hbar _ hv
+
+theorem checkEnum_sound (members : List (String × Nat)) (h : checkEnum members = true) :
+    ∀ v, v < 256 → ∀ s, nameFromValue members v = some s → parseName members s = some v := by
+  intro v hv s hs
+  unfold checkEnum at h
+  rw [List.all_eq_true] at h
+  have := h v (List.mem_range.2 hv)
+  rw [hs] at this
+  simpa using this
+
+/-! ### Plain `Enum.name_from_value` -/
+
+theorem enumName_some (members : List (String × Int)) (value : Int) (n : String)
+    (h : enumNameFromValue members value = some n) :
+    ∃ pre post, members = pre ++ (n, value) :: post ∧ pyIsUpper n = true ∧
+      ∀ p ∈ pre, ¬ (pyIsUpper p.1 = true ∧ p.2 = value) := by
+  induction members with
+  | nil => simp [enumNameFromValue] at h
+  | cons q qs ih =>
+    obtain ⟨m, w⟩ := q
+    unfold enumNameFromValue at h
+    split at h
+    · rename_i hc
+      simp only [Bool.and_eq_true, beq_iff_eq] at hc
+      cases h
+      exact ⟨[], qs, by simp [hc.2], hc.1, by simp⟩
+    · rename_i hc
+      simp only [Bool.and_eq_true, beq_iff_eq] at hc
+      obtain ⟨pre, post, h1, h2, h3⟩ := ih h
+      refine ⟨(m, w) :: pre, post, by simp [h1], h2, ?_⟩
+      intro p hp
+      rcases List.mem_cons.1 hp with rfl | hp
+      · exact hc
+      · exact h3 p hp
+
+theorem enumName_none_iff (members : List (String × Int)) (value : Int) :
+    enumNameFromValue members value = none ↔
+      ∀ p ∈ members, ¬ (pyIsUpper p.1 = true ∧ p.2 = value) := by
+  induction members with
+  | nil => simp [enumNameFromValue]
+  | cons q qs ih =>
+    obtain ⟨m, w⟩ := q
+    unfold enumNameFromValue
+    split
+    · rename_i hc
+      simp only [Bool.and_eq_true, beq_iff_eq] at hc
+      simp [hc]
+    · rename_i hc
+      simp only [Bool.and_eq_true, beq_iff_eq] at hc
+      rw [ih]
+      constructor
+      · intro h p hp
+        rcases List.mem_cons.1 hp with rfl | hp
+        · exact hc
+        · exact h p hp
+      · intro h p hp; exact h p (List.mem_cons_of_mem _ hp)
 
 end PyCraft.Enums
